@@ -115,21 +115,31 @@ class CoopLock:
         self.coop = coop
         self.owner: str | None = None
 
-    def acquire(self) -> bool:
+    def acquire(self, blocking: bool = True, timeout: float = -1) -> bool:
         name = self.coop.me()
         if name is None:                      # the harness's own sequential calls: nobody else is running
             assert self.owner is None
             self.owner = "<main>"
             return True
-        self.coop.waiting_lock[name] = self   # from here on the worker is schedulable only while the lock is free
+        bounded = (not blocking) or (timeout is not None and timeout >= 0)
+        if not bounded:
+            self.coop.waiting_lock[name] = self   # from here on the worker is schedulable only while the lock is free
         self.coop._park(name, "acq")
+        if bounded:
+            # virtual time: a holder that is parked at a yield point inside its critical section holds the lock for
+            # longer than any timeout — the bounded acquire gives up
+            if self.owner is not None:
+                return False
+            self.owner = name
+            return True
         assert self.owner is None, "scheduler resumed a worker whose lock is held"
         del self.coop.waiting_lock[name]
         self.owner = name
         return True
 
     def release(self) -> None:
-        self.owner = None
+        if self.owner == (self.coop.me() or "<main>"):
+            self.owner = None
 
     def __enter__(self):
         self.acquire()
@@ -217,7 +227,13 @@ def install() -> None:
 def instrument_engine(engine, coop: Coop) -> None:
     """Per-engine part: the scheduler-aware lock, the hardware tick and the hardware batch calls.  Setting
     `engine.uod.hwl._verif_fail_reads = n` makes the next n `read_batch` calls raise HardwareLayerException."""
-    engine._lock = CoopLock(coop)
+    # the engine's lock(s), found by what they are, not by what they are called
+    lock_type = type(threading.Lock())
+    rlock_type = type(threading.RLock())
+    replaced = [k for k, v in vars(engine).items() if isinstance(v, (lock_type, rlock_type, CoopLock))]
+    for k in replaced:
+        setattr(engine, k, CoopLock(coop))
+    engine._verif_lock_attrs = replaced
     hwl = engine.uod.hwl
     if not hasattr(hwl, "_verif_tick"):
         hwl._verif_tick = hwl.tick
